@@ -1,6 +1,7 @@
 import Scion.Model.SegVerify
 import Scion.Props.C38
 import Scion.Proofs.SegBinding
+import Scion.Gen.SegVerify
 /-!
 # C24 — Segment verification detects any alteration of signed content
 
@@ -261,6 +262,86 @@ theorem built_entry {SK PK : Type} (S : Scheme SK PK) (info : Bytes) :
       · obtain ⟨c, hc, hrun⟩ := ih es (earlier ++ [e0]) h3 e he'
         exact ⟨c, by simp [hc], hrun⟩
 
+
+theorem built_split {SK PK : Type} (S : Scheme SK PK) (info : Bytes) :
+    ∀ (cs : List (Call SK)) (es earlier : List RawEntry), BuiltFrom S info earlier cs es →
+      ∀ a e b, es = a ++ e :: b →
+        ∃ c ∈ cs, c.ad = assocData info (earlier ++ a) ∧ c.run S = .ok e.msg := by
+  intro cs
+  induction cs with
+  | nil =>
+    intro es earlier hb a e b hs
+    cases es with
+    | nil => simp at hs
+    | cons _ _ => simp [BuiltFrom] at hb
+  | cons c0 cs ih =>
+    intro es earlier hb a e b hs
+    cases es with
+    | nil => simp at hs
+    | cons e0 es =>
+      obtain ⟨h1, h2, h3⟩ := hb
+      cases a with
+      | nil =>
+        simp only [List.nil_append, List.cons.injEq] at hs
+        obtain ⟨rfl, _⟩ := hs
+        exact ⟨c0, by simp, by simpa using h1, h2⟩
+      | cons y a' =>
+        simp only [List.cons_append, List.cons.injEq] at hs
+        obtain ⟨rfl, ht⟩ := hs
+        obtain ⟨c, hc, had, hrun⟩ := ih es (earlier ++ [e0]) h3 a' e b ht
+        exact ⟨c, by simp [hc], by simpa [List.append_assoc] using had, hrun⟩
+
+/-- what makes a signing call acceptable to the verifier: its key id names a certificate in the
+trust DB for the ISD-AS in the signed body, covering the hop field's lifetime, with the signer's
+public key -/
+def Certified {SK PK : Type} (P : Parsers) (S : Scheme SK PK) (certs : List (Cert PK)) (ts : Int)
+    (c : Call SK) : Prop :=
+  ∃ k ia exp cert, P.keyId c.h.keyId = some k ∧ k.skid ≠ [] ∧ P.body c.body = some (ia, exp) ∧
+    k.ia = ia ∧ isWildcard ia = false ∧ cert ∈ certs ∧ cert.ia = ia ∧ cert.skid = k.skid ∧
+    cert.nb ≤ ts * 1000000000 ∧ ts * 1000000000 + expDur exp ≤ cert.na ∧ cert.pk = S.pub c.sk
+
+/-- **`verifySegment_complete` — the "if" of the statement.**  A segment built by `AddASEntry`
+calls whose signers are certified for the entry's ISD-AS with a covering certificate verifies. -/
+theorem verifySegment_complete {SK PK : Type} (P : Parsers) (S : Scheme SK PK)
+    (certs : List (Cert PK)) (cs : List (Call SK)) (info : Bytes) (es : List RawEntry) (ts : Int)
+    (hbuilt : BuiltFrom S info [] cs es) (hF : ∀ c ∈ cs, SoundFor P.F c.h c.body)
+    (hC : Complete S cs) (hts : P.info info = some ts)
+    (hcert : ∀ c ∈ cs, Certified P S certs ts c) :
+    verifySegment P S certs ⟨info, es⟩ = .ok := by
+  apply (verifySegment_iff P S certs ⟨info, es⟩).mpr
+  have key : ∀ a e b, es = a ++ e :: b →
+      (entryView P e).isSome = true ∧ verifyEntry P S certs info ts a e = true := by
+    intro a e b hs
+    obtain ⟨c, hc, had, hrun⟩ := built_split S info cs es [] hbuilt a e b hs
+    simp only [List.nil_append] at had
+    obtain ⟨k, ia, exp, cert, hk, hsk, hbody, hkia, hw, hmem, hcia, hcsk, hnb, hna, hpk⟩ := hcert c hc
+    obtain ⟨hhb, _⟩ := signMsg_ok S c.h c.body c.sk c.rnd c.ad e.msg hrun
+    have hhb' : e.hb = enc c.h c.body := hhb
+    have hex : extract P.F e.hb = some (c.h, c.body) := by
+      simp [extract, hhb', (hF c hc).outer, (hF c hc).hdr]
+    have hview : entryView P e = some (ia, exp) := by simp [entryView, hex, hbody]
+    have hmsg := sign_then_verify P.F S cs hC c hc (hF c hc) e.msg hrun (assocData info a)
+      (by rw [had])
+    refine ⟨by simp [hview], ?_⟩
+    have hchain : cert ∈ chains certs k (ts * 1000000000) (ts * 1000000000 + expDur exp) := by
+      simp [chains, hmem, hcia, hkia, hcsk, hnb, hna]
+    have hkw : isWildcard k.ia = false := by rw [hkia]; exact hw
+    have hskE : k.skid.isEmpty = false := by
+      cases hh : k.skid with
+      | nil => exact absurd hh hsk
+      | cons _ _ => rfl
+    simp only [verifyEntry, hview, verifierVerify, RawEntry.msg, hex, hk, hskE, hkia]
+    simp only [Bool.false_eq_true, if_false, ne_eq, not_true_eq_false, and_false, hw]
+    rw [List.any_eq_true]
+    refine ⟨cert, hchain, ?_⟩
+    rw [hpk]
+    have : (⟨e.hb, e.sig⟩ : SignedMessage) = e.msg := rfl
+    rw [this, hmsg]; rfl
+  refine ⟨ts, hts, ?_, fun a e b hs => (key a e b hs).2⟩
+  intro e he
+  obtain ⟨a, b, hs⟩ := List.append_of_mem he
+  exact (key a e b hs).1
+
 theorem enc_ne_nil (h : Header) (b : Bytes) (hk : algoKnown h.algo = true) : enc h b ≠ [] := by
   have := encHeader_ne_nil h hk
   simp [enc, encHdrAndBody, lenDelim_of_ne_nil _ this]
@@ -318,22 +399,6 @@ theorem verified_is_run_of_signed {SK PK : Type} (P : Parsers) (S : Scheme SK PK
       simp only [List.nil_append, assocData_flatten] at had
       exact had.symm
   exact bound_is_run PF hne hV es' info' hne' hB
-
-theorem Agree.map_hb : ∀ {l' l : List RawEntry}, Agree l' l →
-    l'.map (·.hb) = l.map (·.hb) ∧ l'.dropLast = l.dropLast
-  | [], [], _ => ⟨rfl, rfl⟩
-  | [_], [_], h => ⟨by simpa [Agree] using h, rfl⟩
-  | e' :: x' :: t', e :: x :: t, h => by
-    obtain ⟨h1, h2⟩ := h
-    obtain ⟨i1, i2⟩ := Agree.map_hb (l' := x' :: t') (l := x :: t) h2
-    subst h1
-    exact ⟨by simp only [List.map_cons] at i1 ⊢; rw [i1], by
-      simp only [List.dropLast_cons₂] at i2 ⊢; rw [i2]⟩
-  | [], _ :: _, h => by simp [Agree] at h
-  | [_], [], h => by simp [Agree] at h
-  | [_], _ :: _ :: _, h => by simp [Agree] at h
-  | _ :: _ :: _, [], h => by simp [Agree] at h
-  | _ :: _ :: _, [_], h => by simp [Agree] at h
 
 /-- **Same segment info ⇒ a prefix.**  With the segment info untouched, whatever verifies is a
 prefix of the signed segment: the signed `HeaderAndBody` of the entries form a prefix of the
@@ -404,7 +469,7 @@ theorem altered_earlier_signature_rejected {SK PK : Type} (P : Parsers) (S : Sch
   obtain ⟨_, hp⟩ := verified_same_info_is_prefix P S certs cs info es hbuilt hE hF hI hC hPF _ hv
   have hdl : (a ++ x' :: y :: b').dropLast = a ++ x' :: (y :: b').dropLast := by
     rw [List.dropLast_append_of_ne_nil (by simp)]
-    simp [List.dropLast_cons₂]
+    simp
   rw [hdl, hes] at hp
   have := (List.prefix_append_right_inj _).mp hp
   exact halt (List.cons_prefix_cons.mp this).1
@@ -428,5 +493,152 @@ theorem altered_info_rejected {SK PK : Type} (P : Parsers) (S : Scheme SK PK)
   have : flatE a = [] := List.eq_nil_of_length_eq_zero (by omega)
   rw [this, List.append_nil] at hinfo
   exact halt hinfo
+
+/-! ## Non-vacuity: a two-entry segment that meets every hypothesis above -/
+
+namespace Toy
+
+def ia0 : Nat := 2^48 + 1
+def ia1 : Nat := 2^48 + 2
+def info : Bytes := [0x08, 0x05]
+def b0 : Bytes := [0xaa]
+def b1 : Bytes := [0xbb]
+def h0 : Header := ⟨1, [1], zeroSec, 0, [], ((assocData info []).flatten.length : Int)⟩
+def e0 : RawEntry := ⟨enc h0 b0, [1]⟩
+def h1 : Header := ⟨2, [2], zeroSec, 0, [], ((assocData info [e0]).flatten.length : Int)⟩
+def e1 : RawEntry := ⟨enc h1 b1, [2]⟩
+def c0 : Call Nat := ⟨1, 0, h0, b0, assocData info []⟩
+def c1 : Call Nat := ⟨2, 0, h1, b1, assocData info [e0]⟩
+
+/-- key `k` signs with the one-byte signature `[k]`; the primitive accepts exactly the two
+signatures that were made -/
+def S : Scheme Nat Nat :=
+  { pub := id, kind := fun _ => .ecdsa, sign := fun sk _ _ _ => [UInt8.ofNat sk]
+    verify := fun pk algo m σ =>
+      (pk == 1 && algo == 1 && m == preimage e0.hb c0.ad && σ == [1]) ||
+      (pk == 2 && algo == 2 && m == preimage e1.hb c1.ad && σ == [2]) }
+
+theorem varint_one : varint 1 = [1] := by rw [varint]; simp
+theorem varint_two : varint 2 = [2] := by rw [varint]; simp
+
+theorem hdr_ne : encHeader h0 ≠ encHeader h1 := by
+  simp [encHeader, varField, algoToPB, h0, h1, varint_one, varint_two]
+
+theorem enc_ne : enc h0 b0 ≠ enc h1 b1 := by
+  intro h
+  have k0 : encHeader h0 ≠ [] := encHeader_ne_nil h0 (by decide)
+  have k1 : encHeader h1 ≠ [] := encHeader_ne_nil h1 (by decide)
+  have := frame_PR (r := lenDelim 0x12 b0) (r' := lenDelim 0x12 b1) k0 k1
+    (Or.inl (by unfold enc encHdrAndBody at h; rw [h]; exact List.prefix_refl _))
+  exact hdr_ne this.1
+
+def F : Framing :=
+  { parseHdr := fun e => if e = encHeader h0 then some h0 else if e = encHeader h1 then some h1 else none
+    parseOuter := fun x =>
+      if x = enc h0 b0 then some (encHeader h0, b0, [])
+      else if x = enc h1 b1 then some (encHeader h1, b1, []) else none }
+
+def P : Parsers :=
+  { F := F
+    keyId := fun k => if k = [1] then some ⟨ia0, [7]⟩ else if k = [2] then some ⟨ia1, [8]⟩ else none
+    body := fun b => if b = b0 then some (ia0, 63) else if b = b1 then some (ia1, 63) else none
+    info := fun _ => some 1700000000 }
+
+def certs : List (Cert Nat) :=
+  [⟨ia0, [7], 0, 10^19, 1⟩, ⟨ia1, [8], 0, 10^19, 2⟩]
+
+theorem run0 : c0.run S = .ok e0.msg := by
+  have : (adLenOf (assocData info []) : Int) = h0.adLen := by
+    rw [adLenOf_eq_length_flatten]; rfl
+  simp [Call.run, signMsg, signInput, c0, this, checkPubKeyAlgo, algoKnown, h0, S, e0, RawEntry.msg]
+
+theorem run1 : c1.run S = .ok e1.msg := by
+  have : (adLenOf (assocData info [e0]) : Int) = h1.adLen := by
+    rw [adLenOf_eq_length_flatten]; rfl
+  simp [Call.run, signMsg, signInput, c1, this, checkPubKeyAlgo, algoKnown, h1, S, e1, RawEntry.msg]
+
+theorem built : BuiltFrom S info [] [c0, c1] [e0, e1] :=
+  ⟨rfl, run0, rfl, run1, trivial⟩
+
+theorem sound : ∀ c ∈ [c0, c1], SoundFor P.F c.h c.body := by
+  intro c hc
+  simp only [List.mem_cons, List.not_mem_nil, or_false] at hc
+  rcases hc with rfl | rfl
+  · exact ⟨by simp [P, F, c0], by simp [P, F, c0]⟩
+  · exact ⟨by simp [P, F, c1, enc_ne.symm], by simp [P, F, c1, hdr_ne.symm]⟩
+
+theorem emptyUnknown : EmptyHdrUnknown P.F := by
+  intro h hh
+  have k0 : ([] : Bytes) ≠ encHeader h0 := fun e => encHeader_ne_nil h0 (by decide) e.symm
+  have k1 : ([] : Bytes) ≠ encHeader h1 := fun e => encHeader_ne_nil h1 (by decide) e.symm
+  simp [P, F, k0, k1] at hh
+
+theorem ideal : Ideal S [c0, c1] := by
+  intro pk algo m σ hv
+  simp only [S, Bool.or_eq_true, Bool.and_eq_true, beq_iff_eq] at hv
+  rcases hv with ⟨⟨⟨h1, h2⟩, h3⟩, _⟩ | ⟨⟨⟨h1, h2⟩, h3⟩, _⟩
+  · exact ⟨c0, by simp, _, h1.symm, h2.symm, run0, h3⟩
+  · exact ⟨c1, by simp, _, h1.symm, h2.symm, run1, h3⟩
+
+theorem complete : Complete S [c0, c1] := by
+  intro c hc msg hrun
+  simp only [List.mem_cons, List.not_mem_nil, or_false] at hc
+  rcases hc with rfl | rfl
+  · rw [run0] at hrun; cases hrun
+    simp [S, c0, h0, e0, RawEntry.msg]
+  · rw [run1] at hrun; cases hrun
+    simp [S, c1, h1, e1, RawEntry.msg]
+
+theorem prefixFree : SigPrefixFree S := by
+  intro pk a m σ pk' a' m' x h1 h2
+  simp only [S, Bool.or_eq_true, Bool.and_eq_true, beq_iff_eq] at h1 h2
+  rcases h1 with ⟨_, rfl⟩ | ⟨_, rfl⟩ <;> rcases h2 with ⟨_, h⟩ | ⟨_, h⟩ <;> simp at h <;> exact h
+
+theorem certified : ∀ c ∈ [c0, c1], Certified P S certs 1700000000 c := by
+  intro c hc
+  simp only [List.mem_cons, List.not_mem_nil, or_false] at hc
+  rcases hc with rfl | rfl
+  · exact ⟨⟨ia0, [7]⟩, ia0, 63, ⟨ia0, [7], 0, 10^19, 1⟩, by simp [P, c0, h0], by simp,
+      by simp [P, c0], rfl, by decide, by simp [certs], rfl, rfl, by decide, by decide, rfl⟩
+  · exact ⟨⟨ia1, [8]⟩, ia1, 63, ⟨ia1, [8], 0, 10^19, 2⟩, by simp [P, c1, h1], by simp,
+      by simp [P, c1, b0, b1], rfl, by decide, by simp [certs], rfl, rfl, by decide, by decide, rfl⟩
+
+end Toy
+
+/-- the honestly built toy segment verifies (so the hypotheses of the theorems of this file are
+jointly satisfiable with a non-trivial conclusion) … -/
+example : verifySegment Toy.P Toy.S Toy.certs ⟨Toy.info, [Toy.e0, Toy.e1]⟩ = .ok :=
+  verifySegment_complete Toy.P Toy.S Toy.certs [Toy.c0, Toy.c1] Toy.info [Toy.e0, Toy.e1] 1700000000
+    Toy.built Toy.sound Toy.complete rfl Toy.certified
+
+/-- … and, by the mutation theorem, the same two entries in the opposite order do not. -/
+example : verifySegment Toy.P Toy.S Toy.certs ⟨Toy.info, [Toy.e1, Toy.e0]⟩ ≠ .ok := by
+  have hne : Toy.e1.hb ≠ Toy.e0.hb := fun h => Toy.enc_ne h.symm
+  exact altered_entry_rejected Toy.P Toy.S Toy.certs [Toy.c0, Toy.c1] Toy.info [Toy.e0, Toy.e1]
+    Toy.built Toy.emptyUnknown Toy.sound Toy.ideal Toy.complete Toy.prefixFree
+    [] Toy.e0 Toy.e1 [Toy.e1] [Toy.e0] rfl hne
+
+/-! ## Facts regenerated from the source on every run (T3) -/
+
+/-- What the model hard-codes, re-read from the source: `associatedData(idx)` is the raw info
+followed by `HeaderAndBody`, `Signature` of the entries `0 … idx-1`; `VerifyASEntry` hands exactly
+that to the verifier; `VerifySegment` loops over all entries, binds the verifier to the entry's
+`Local` ISD-AS and to `[Info.Timestamp, Info.Timestamp + ExpTimeToDuration(ExpTime)]` and verifies
+entry `i`; `trust.Verifier.Verify` runs its guards in the modelled order and verifies with the
+first certificate of each chain. -/
+theorem gen_facts :
+    Gen.SegVerify.assocDataAppends = ["append ps.Info.Raw", "range idx",
+      "append ps.ASEntries[i].Signed.HeaderAndBody", "append ps.ASEntries[i].Signed.Signature"] ∧
+    Gen.SegVerify.verifyASEntryArgs = ["ctx", "ps.ASEntries[idx].Signed", "ps.associatedData(idx)..."] ∧
+    Gen.SegVerify.verifySegmentBind = ["range segment.ASEntries", "NotBefore segment.Info.Timestamp",
+      "NotAfter segment.Info.Timestamp.Add( path.ExpTimeToDuration(asEntry.HopEntry.HopField.ExpTime), )",
+      "WithIA asEntry.Local", "WithValidity validity", "VerifyASEntry ctx, verifier, i"] ∧
+    Gen.SegVerify.verifierCalls = ["signed.ExtractUnverifiedHeader", "proto.Unmarshal", "ia.IsWildcard",
+      "v.notifyTRC", "v.getChains", "signed.Verify"] ∧
+    Gen.SegVerify.verifierGuards = ["err != nil", "len(keyID.SubjectKeyId) == 0",
+      "!v.BoundIA.IsZero() && !v.BoundIA.Equal(ia)", "ia.IsWildcard()", "v.Engine == nil",
+      "err != nil", "err == nil"] ∧
+    Gen.SegVerify.verifierVerifyArgs = ["signedMsg", "c[0].PublicKey", "associatedData..."] :=
+  ⟨rfl, rfl, rfl, rfl, rfl, rfl⟩
 
 end Scion.C24
